@@ -161,15 +161,16 @@ impl<'a> Evaluator<'a> {
                 match self.evaluate_expression_factor(factor, track_usage)? {
                     Some(value) => match value {
                         SymbolData::Number(mut number) => {
+                            // `!-x` is written with the '!' first, so the negation is the inner operation
+                            if flags.contains(ExpressionFactorFlags::NEG) {
+                                number = -number;
+                            }
                             if flags.contains(ExpressionFactorFlags::NOT) {
                                 if number == 0 {
                                     number = 1
                                 } else {
                                     number = 0
                                 }
-                            }
-                            if flags.contains(ExpressionFactorFlags::NEG) {
-                                number = -number;
                             }
                             Ok(Some(number.into()))
                         }
